@@ -136,10 +136,19 @@ def _worker(args):
         return {"crash": traceback.format_exc(), "shard": shard}
 
 
+DRIFT = {}
+
+
 def run_shards(fn_mod, fn_name, pid, seed, nshards, ncases_per_shard, tier, extra=None, procs=None):
     """run `fn(pid, seed, shard, ncases, tier, extra) -> dict(stats..., findings=[Finding], samples=[..], hist={..})`
     in parallel and merge."""
     procs = procs or min(nshards, int(os.environ.get("VERIF_PROCS", "16")))
+    # the anchored source differs from the tree the models were written against: search harder (anchors.py); never a
+    # verdict by itself
+    import anchors, math
+    sc, changed = anchors.scale(pid, common.REPO, tier)
+    DRIFT[pid] = {"anchored_files_changed_since_lock": changed, "case_count_scale": sc}
+    ncases_per_shard = int(math.ceil(ncases_per_shard * sc))
     jobs = [(fn_mod, fn_name, pid, seed, s, ncases_per_shard, tier, extra) for s in range(nshards)]
     if procs <= 1:
         outs = [_worker(j) for j in jobs]
@@ -263,6 +272,8 @@ def write_evidence(pid, tier, seed, t0, proof, run, rule, trusted_base, assumpti
     }
     if extra_cov:
         cov.update(extra_cov)
+    if pid in DRIFT:
+        cov["source_drift"] = DRIFT[pid]
     ev = {"property_id": pid, "tier": tier, "seed": seed, "level": "proof", "coverage": jsonable(cov),
           "assumptions": assumptions, "wall_s": round(time.time() - t0, 2), "violations": nviol}
     # evidence/ describes runs against /repo itself; a run against a scratch worktree ($MYSTIC_REPO, used to try the
